@@ -875,6 +875,11 @@ func ComparisonExpr(query *Query, current Map, expr *sqlparser.ComparisonExpr, o
 				switch value := value.(type) {
 				case Map:
 					{
+						// a row of the sub-query on the right of IN: it has to consist of one column,
+						// with more there is no telling which one is meant (map order is random)
+						if len(value) != 1 {
+							return false, EXPECTATION_FAILED.Extend(fmt.Sprintf("failed to build `IN` expression. the subquery returns %d columns, expected 1", len(value)))
+						}
 						for _, value := range value {
 							if v, ok := value.(*float64); ok {
 								value = *v
